@@ -257,7 +257,7 @@ def generate(seed, run, tier="quick", overrides=None):
         "rename.sc": prng.choice([1, 3]), "rename.gen": prng.choice([1, 3]),
         "rename.permute": prng.choice([1, 3]), "rename.subs": prng.choice([1, 3, 5]),
         "rename.minimize": prng.choice([0, 1, 2]), "rename.copy": prng.choice([0, 1]),
-        "rename.term": prng.choice([0, 1, 2]),
+        "rename.term": prng.choice([0, 1, 2]), "rename.after": prng.choice([0, 1, 2]),
         "respin": prng.choice([1, 2]) if spin_mode else 0,
         "misc": 0 if faultfree else prng.choice([0, 1]),
     }
@@ -326,6 +326,12 @@ def generate(seed, run, tier="quick", overrides=None):
                 st["pick"] = rng.randrange(1 << 20)
             elif k == "rename.copy":
                 st["how"] = rng.choice(["sc", "gen"])
+            elif k == "rename.after":
+                st["pre"] = rng.choice(["diag_fock", "diag_fock", "block_diag", "symbolic",
+                                        "rename_tensor", "expand"])
+                st["derive"] = rng.choice(["copy", "mul", "add", "term", "none"])
+                st["how"] = rng.choice(["sc", "gen"])
+                st["route"] = rng.choice([6, 6, 0, 1, 2, 3, 4, 5])
             elif k == "rename.term":
                 st["how"] = rng.choice(["permute", "permute", "sc", "gen"])
                 st["pick"] = rng.randrange(1 << 20)
@@ -763,6 +769,84 @@ class C08Session:
             sl["expr"] = after
             sl["raw"] = None
         return {"gen": str(after)}
+
+    def op_rename_after(self, st):
+        """a bookkeeping step of the container (canonical basis, symbolic denominators,
+        tensor renamed, ...), then a container derived from it (copy, arithmetic, Term-level
+        result), then the renaming: checked against the state right after the bookkeeping step"""
+        sl = self._slot(st)
+        if sl is None:
+            return {"skip": True}
+        e = self.make_expr(sl, st.get("route", 0))
+        pre = st["pre"]
+        try:
+            if pre == "diag_fock":
+                e.diagonalize_fock()
+            elif pre == "block_diag":
+                e.block_diagonalize_fock()
+            elif pre == "symbolic":
+                e.use_symbolic_denominators()
+            elif pre == "rename_tensor":
+                e.rename_tensor("w", "W9")
+            else:
+                e.expand()
+        except Exception as exc:  # noqa: BLE001
+            # the bookkeeping step itself is not under test here (e.g. diagonalize_fock
+            # raises TypeError for terms with an orbital energy denominator, DESIGN 8.3)
+            if "injected at" in str(exc):
+                raise
+            self.probes["after_pre_raised"] = self.probes.get("after_pre_raised", 0) + 1
+            return {"skip": True}
+        base = e.sympy
+        tg = e.provided_target_idx
+        if tg is None:
+            tg = self._einstein_targets(base.expand())
+        if base == 0 or tg is None or set(tg) != set(sl["targets"]):
+            # the bookkeeping step removed the expression / re-defined the target set: no
+            # reference to compare with
+            self.probes["after_skipped"] = self.probes.get("after_skipped", 0) + 1
+            return {"skip": True}
+        self.probes["after_" + pre] = self.probes.get("after_" + pre, 0) + 1
+        if base != sl["expr"]:
+            self.probes["after_changed_expr"] = self.probes.get("after_changed_expr", 0) + 1
+        derive = st["derive"]
+        if derive == "copy":
+            d = e.copy()
+        elif derive == "mul":
+            d, base = e * 3, (3 * base)
+        elif derive == "add":
+            d, base = e + e, (2 * base)
+        elif derive == "term":
+            from adcgen import Expr
+            d = None
+            for t in e.terms:
+                x = t.substitute_contracted()
+                d = x if d is None else d + x
+            if not isinstance(d, Expr):
+                d = Expr(d.sympy, **d.assumptions)
+        else:
+            d = e
+        base = base.expand()
+        snap = {"expr": base, "targets": tuple(tg), "fp": None}
+        before_names = {k: set(v) for k, v in self.model.known.items()}
+        what = f"{pre}, {derive}, then " + ("substitute_contracted" if st["how"] == "sc"
+                                            else "substitute_with_generic")
+        if st["how"] == "sc":
+            after = d.substitute_contracted().sympy
+            self.check_targets_untouched(base, after, snap["targets"], what)
+            self.check_lowest(after, snap["targets"], what)
+        else:
+            after = d.substitute_with_generic().sympy
+            self.check_targets_untouched(base, after, snap["targets"], what)
+            for s_ in after.atoms(self.Index):
+                if s_ in snap["targets"]:
+                    continue
+                if s_.name in before_names[self.key_of(s_)]:
+                    self.viol("rename", "e-fresh", f"{what}: contracted index {s_} of the "
+                              f"result {after} carries a name that had been handed out before")
+                    break
+        self._compare_value(snap, after, what)
+        return {"after": str(after)}
 
     def op_rename_copy(self, st):
         from adcgen import Expr
